@@ -85,7 +85,14 @@ S_NS = ('<br xmlns:tal="urn:example:my-own-vocabulary" tal:role="x" />'
 # change how another one is compiled)
 S_XB = '<p>${helper}-${name}${y()}</p>'
 S_USESVAR = "<p>${helper | 'none'}-${name}${y()}</p><b tal:condition=\"exists: helper\">has</b>"
-STRING_OPTIONS = {"xb": {"extra_builtins": {"helper": "EB"}}}
+# encoded input: byte strings as content and as message ids (the helper
+# functions render() sets up for them depend on its own arguments only)
+S_ENC = ('<div i18n:domain="e"><p i18n:translate="">Bonjour '
+         '<b i18n:name="who">${name}</b>${y()}</p><i tal:content="raw">x</i>'
+         '<u i18n:translate="" tal:content="raw">x</u>${y()}'
+         '<p i18n:translate="">caf\u00e9 ${name}</p></div>')
+STRING_OPTIONS = {"xb": {"extra_builtins": {"helper": "EB"}},
+                  "enc": {"encoding": "utf-8"}}
 # attribute-then-item lookup on objects of one type of which some have the
 # attribute and all have the item (what one render saw of a type must not
 # change how the next one treats another instance)
@@ -96,7 +103,7 @@ S_MUTLIT = ('<div tal:define="seen []; d {\'k\': 0}"><?python seen.append(name);
             '<p>${len(seen)}:${seen[0]}:${d[\'k\']}${y()}</p>'
             '<i tal:repeat="x [1, 2]" tal:content="x">x</i></div>')
 STRINGS = {"mutlit": S_MUTLIT, "row": S_ROW, "xb": S_XB, "usesvar": S_USESVAR, "i18nattr": S_I18NATTR, "err": S_ERR, "ns": S_NS, "gmacro": S_GMACRO, "imp1": S_IMP1, "imp2": S_IMP2, "global": S_GLOBAL, "macro": S_MACRO, "code": S_CODE,
-           "i18n": S_I18N, "nested": S_NESTED}
+           "i18n": S_I18N, "nested": S_NESTED, "enc": S_ENC}
 
 F_LIB = (
     '<div><p metal:define-macro="m">lib:${name}<i metal:define-slot="s">d</i>${y()}</p>'
@@ -687,9 +694,13 @@ class C14(CheckBase):
             if s is not None and s.active:
                 s.yield_point("probe:y", interesting=True, access=True)
             return ""
+        def tr(msgid, **kw):
+            # (every caller has a translation function of its own)
+            return "%d:%s" % (k, tr_stub(msgid, **kw))
         return {"name": "n%d" % k, "items": [k, k + 1, k + 2],
                 "helper": "H%d" % k, "row": Row(k),
-                "y": y, "translate": tr_stub,
+                "raw": ("caf\u00e9-%d" % k).encode("utf-8"),
+                "y": y, "translate": tr,
                 "markup": Markup("<em>m%d</em>" % k),
                 "opts": {"a": [k], "b": {"c": k}}}
 
